@@ -42,7 +42,7 @@ func drawC11(rt *rapid.T) interface{} {
 	sc.Init = rapid.SampledFrom([]string{"zero", "zero", "bytes", "string", "sized"}).Draw(rt, "init")
 	sc.InitData = rapid.SliceOfN(rapid.Byte(), 0, 70).Draw(rt, "initdata")
 	sc.InitSize = rapid.SampledFrom([]int{0, 1, 16, 64, 100, 1000}).Draw(rt, "initsize")
-	n := rapid.IntRange(1, 40).Draw(rt, "nops")
+	n := rapid.IntRange(1, hx.Pick(40, 120)).Draw(rt, "nops")
 	prev := ""
 	for i := 0; i < n; i++ {
 		op := bOp{Op: rapid.SampledFrom(bufOps).Draw(rt, "op"), Short: -1, Fail: -1}
@@ -338,6 +338,7 @@ func TestC11(t *testing.T) {
 		Stubs:       []string{"io.Reader handed to ReadFrom (fragmenting, (0,nil) reads, data with EOF, error after k bytes, negative count)", "io.Writer handed to WriteTo (short write, error after k bytes, over-long count)"},
 		Rule: "scenario = initial buffer (zero, NewBuffer, NewBufferString, NewSizedBuffer) x up to 40 operations over Write/WriteString/WriteByte/WriteRune (incl. negative, surrogate and out-of-range runes)/Read/ReadByte/ReadRune/UnreadByte/UnreadRune/Next/Truncate/Reset/Grow (incl. invalid arguments)/ReadFrom(faulty reader)/WriteTo(faulty writer)/Len/Bytes/String/ReWrite; " +
 			"both buffers run the same operation, results + errors + recovered panics + Len + Bytes compared after every step; non-trivial = >=3 ops; distinct = distinct hash of the step log",
+		Probes: []string{"panic-in-both", "rewrite", "fragment", "zero-read", "eof-with-data", "read-error", "read-error-with-data", "short-write", "write-error", "unread-after-grow-skipped"},
 		Assumptions: []string{"reference = bytes.Buffer of the toolchain building the check (go1.26.8)", "UnreadByte/UnreadRune directly after Grow and Cap() are not compared (the property's exclusion)",
 			"ReWrite is checked against its one-line specification while nothing has been read since the last reset"},
 	})
